@@ -36,6 +36,9 @@ type decScope struct {
 	barrier map[*ssa.Function]bool   // functions that recover panics of their callees
 	guarded map[*ssa.Function]bool   // reachable only below a barrier
 	entryOf map[*ssa.Function]string // an entry that reaches it
+	// parameters of a callee bound to the arguments of the call site under
+	// analysis (DA.SIGN through clamp helpers)
+	paramBind map[*ssa.Parameter]boundArg
 }
 
 // hasRecover: fn defers a function literal that calls recover().
